@@ -17,6 +17,9 @@ HARNESSES = [
     dict(name="logseq", src=["logseq.c"], variant="asan", deadline={"quick": 120, "thorough": 900}),
     # concurrent half: background / foreground channel and the full pipeline under the controlled scheduler
     dict(name="logmt", src=["logmt.c"], variant="sched", wrap=True, deadline={"quick": 150, "thorough": 1500}),
+    # free-running ThreadSanitizer twin of the scenario bodies (DESIGN 4.5): no wrapping, OS scheduler, decides nothing;
+    # discharges VSX's proviso that there is no unsynchronised access between schedule points
+    dict(name="logmt-tsan", src=["logmt.c"], variant="tsan", cflags=["-DVSX_FREE"], tiers=["thorough"], deadline={"thorough": 600}),
 ]
 
 ASSUMPTIONS = [
